@@ -24,4 +24,21 @@ def decodeVarintAux : Nat → Bytes → Option (Nat × Bytes)
 
 def decodeVarint (bs : Bytes) : Option (Nat × Bytes) := decodeVarintAux 4 bs
 
+/-- one step of the client's remaining-length loop in `peekPacket` (client.go:795-818) -/
+inductive RemStep | done (size : Nat) | more (size : Nat) | tooLong
+deriving DecidableEq, Repr
+
+def remLenStep (shift size : Nat) (b : UInt8) : RemStep :=
+  let size := size + (b.toNat % 128) * 2 ^ shift
+  if b.toNat < 128 then .done size else if shift ≥ 21 then .tooLong else .more size
+
+/-- the client's loop over a byte list: `none` = more bytes needed -/
+def clientRemLen : Bytes → Nat → Nat → Option (Option (Nat × Bytes))
+  | [], _, _ => none
+  | b :: rest, shift, size =>
+    match remLenStep shift size b with
+    | .done n => some (some (n, rest))
+    | .tooLong => some none
+    | .more n => clientRemLen rest (shift + 7) n
+
 end Model
